@@ -64,18 +64,20 @@ type c06Arrival struct {
 }
 
 type c06Data struct {
-	License2  string     `json:"second_life_license,omitempty"`
-	Queue     bool       `json:"queue_mode"`
-	QueueSize int        `json:"queue_size"`
-	Faulty    bool       `json:"faulty"`
-	Sends     []*c06Send `json:"sends"`
-	Plan      []string   `json:"fault_plan"`
-	HealStamp int64      `json:"heal_stamp"`
-	Conns     []string   `json:"conns"`
-	net       *simnet.Network
-	arrivals  []c06Arrival
-	healed    bool
-	dialWait  []*simrt.Task
+	License2    string     `json:"second_life_license,omitempty"`
+	Queue       bool       `json:"queue_mode"`
+	QueueSize   int        `json:"queue_size"`
+	ManualDrain bool       `json:"manual_drain,omitempty"` // background goroutine stopped by the application, queue drained with SendAndClear()
+	DrainErr    string     `json:"drain_error,omitempty"`
+	Faulty      bool       `json:"faulty"`
+	Sends       []*c06Send `json:"sends"`
+	Plan        []string   `json:"fault_plan"`
+	HealStamp   int64      `json:"heal_stamp"`
+	Conns       []string   `json:"conns"`
+	net         *simnet.Network
+	arrivals    []c06Arrival
+	healed      bool
+	dialWait    []*simrt.Task
 }
 
 //go:norace
@@ -270,6 +272,14 @@ func c06Body(faulty bool) func(rc *RunCtx) {
 		}
 		client := oneway.GetOneWayTcpClient(opts...)
 		simrt.OnReset(func() { client.Destroy() })
+		// manual drain: the application stops the background goroutine through its own context
+		// and drains the queue itself with the public SendAndClear() (one batch, one flush)
+		if !faulty && d.Queue && appCancel != nil && simrt.ChanceF(1, 3) {
+			d.ManualDrain = true
+			simrt.Probe("manual_drain_send_and_clear")
+			appCancel()
+			simrt.Settle(int64(11 * time.Second)) // the background goroutine sees the cancel at its next wake-up
+		}
 
 		nTasks := 1 + simrt.Choose(4)
 		nextID := 0
@@ -311,6 +321,17 @@ func c06Body(faulty bool) func(rc *RunCtx) {
 				plans[t] = append(plans[t], it)
 			}
 			total += k
+		}
+		if d.ManualDrain && total > 1 && simrt.ChanceF(1, 3) {
+			// a frame larger than the write buffer somewhere behind the head of the batch
+			k := 1 + simrt.ChooseF(total-1)
+			for t := range plans {
+				if k < len(plans[t]) {
+					plans[t][k].size = 2*1024*1024 + 100 + simrt.ChooseF(5000)
+					break
+				}
+				k -= len(plans[t])
+			}
 		}
 		simrt.SetStepsGuess(int64(total) * 120)
 		pace := simrt.Choose(7) // 6 = around the background goroutine's 5 s wake-ups; 0 burst, 1 occasional pauses, 2 slow senders, 3 around whole seconds, 4 right when a dial starts, 5 long quiet periods
@@ -425,6 +446,12 @@ func c06Body(faulty bool) func(rc *RunCtx) {
 		for _, tk := range tasks {
 			simrt.Join(tk)
 		}
+		if d.ManualDrain {
+			simrt.Note("application calls SendAndClear()")
+			if err := client.SendAndClear(); err != nil {
+				d.DrainErr = err.Error()
+			}
+		}
 		if !faulty && !d.Queue && simrt.ChanceF(1, 3) {
 			// the application closes the client once its senders are done (direct mode: nothing
 			// else uses the connection); everything already accepted must still arrive
@@ -434,7 +461,7 @@ func c06Body(faulty bool) func(rc *RunCtx) {
 		}
 		// let the queue drain / timers run
 		simrt.Settle(int64(40 * time.Second))
-		if !faulty && simrt.ChanceF(1, 6) {
+		if !faulty && !d.ManualDrain && simrt.ChanceF(1, 6) {
 			// second life: the application destroys the client and asks for a new one; the sends
 			// of the recovery phase go through it
 			simrt.Note("application calls Destroy() and GetOneWayTcpClient() again")
@@ -481,6 +508,9 @@ func c06Body(faulty bool) func(rc *RunCtx) {
 			for i := 0; i < c06RecoverySends; i++ {
 				nextID++
 				doSend(0, item{id: nextID, kind: 0, size: 20, pcode: 4242, flush: true}, "recovery")
+				if d.ManualDrain {
+					client.SendAndClear()
+				}
 				simrt.Settle(int64(8 * time.Second))
 			}
 			simrt.Settle(int64(30 * time.Second))
